@@ -125,6 +125,7 @@ Section Walk.
       rewrite Hcr.
       replace (blen c + blen d <? blen c) with false by lia.
       replace (blen c + blen d - blen c) with (blen d) by lia.
+      replace (blen (d ++ enc_sections t) <? blen d) with false by (rewrite blen_app; lia).
       rewrite take_app.
       pose proof (Hg p Hp) as Hm. cbn [fst snd] in Hm. rewrite Hm.
       replace (blen pre + uv_size (blen c + blen d) + blen c + blen d) with (blen (pre ++ enc_section c d))
@@ -158,6 +159,7 @@ Section Walk.
   Proof.
     intros Hh Hb Hg Hdv. unfold reader_inspect. rewrite Hdv. unfold payload_hb at 1.
     rewrite (read_header_hb hok hdrdec pragma_ok hb roots 1) by (try apply Hh; eapply (hdr_ok_63 hok hdrdec pragma_ok); exact Hh).
+    change (1 =? 1) with true. cbn [negb]. rewrite andb_false_r.
     rewrite <- blen_ld.
     rewrite (inspect_loop_sections bs (payload_hb hb bs) (ld hb) [] _ eq_refl Hb Hg (length_payload_ge hb bs)).
     rewrite app_nil_r, rev_involutive. reflexivity.
